@@ -77,6 +77,8 @@ def generate(tier, rng):
         if i % 3 == 0:
             sps += [gen.rand_obj(rng, rng.choice([1, 2, 3]), minlen=1, maxlen=4) for _ in range(rng.randint(1, 3))]
             sps = [json.loads(json.dumps(s)) for s in sps]
+        if i % 4 == 1:
+            sps = [{}] + sps          # the empty state point is a state point like any other
         uniq = {}
         for s in sps:
             uniq[W.ref_id(s)] = s
